@@ -34,7 +34,7 @@ def run(chk):
     chk.rule = ("generated templates with > < >< <> on elements in every structural position (first / last / only child, adjacent marked "
                 "siblings, void elements, inside children blocks and nested templates, around dynamic text with leading / trailing blanks, "
                 "next to filters) x 4 environments (values with leading/trailing spaces, tabs, line breaks); plus Buffer.Bytes on byte strings "
-                "around the markers against the Coq model of the whitespace regexp; non-trivial = template with a mark; distinct by template+env")
+                "around the markers against the Coq model of the whitespace regexp; plus Buffer.Bytes on random whole documents (0-8 pieces: text runs from a pool with blanks of all five kinds, '>' '<' next to sentinels, non-ASCII, and 7% marker look-alikes; sentinels 60%) that pass the extracted test doc_ok, against spec of C14_whole_document; non-trivial = template with a mark; distinct by template+env")
     if br.go_ok and br.coq_ok:
         files = {}
         for i in range(nfiles):
@@ -91,6 +91,54 @@ def run(chk):
                 nb += 1
                 if nb <= 3:
                     chk.broke("correspondence", "L-RUNTIME", "nuke model differs from Buffer.Bytes", input_hex=common.hx(c), impl=a, model=m)
+            else:
+                chk.traces += 1
+        # L-DOC: whole documents (text runs and sentinels in any placement).  The extracted model gives the hypothesis test of
+        # C14_document_test_is_sound, the bytes as written and the specification; the real Buffer.Bytes runs on the bytes as written.
+        texts = [b"", b" ", b"\n", b" \t\n", b"x", b"<a>", b"</a>\n", b" x ", b"\ny z\n ", b">", b"<", b"> ", b" <", "é".encode(), b"\xa0", b"\x0b",
+                 b"a\r\n", b"\x0c", b">\xe2", b"~", b"\xe2\x98\xa2", b"x~", "☢<".encode()]
+        docs = []
+        for _ in range(3000 if quick else 60000):
+            d = []
+            for _ in range(rng.randint(0, 8)):
+                k = rng.random()
+                if k < 0.3:
+                    d.append("A")
+                elif k < 0.6:
+                    d.append("B")
+                else:
+                    t = b"".join(rng.choice(texts[:18] if rng.random() < 0.93 else texts) for _ in range(rng.randint(0, 3)))
+                    if d and d[-1].startswith("T") and rng.random() < 0.9:
+                        d[-1] = d[-1] + t.hex()          # keep text runs maximal most of the time
+                    else:
+                        d.append("T" + t.hex())
+            docs.append(d)
+        model = common.run_lines_parallel(common.DRIVER, ["nukedoc " + " ".join(d) if d else "nukedoc" for d in docs])
+        parsed = []
+        for d, m in zip(docs, model):
+            f = m.split(" ")
+            if len(f) < 2 or f[0] != "ok":
+                chk.broke("correspondence", "L-DOC", "the model does not answer for a document", doc=d, model=m)
+                parsed.append(None)
+                continue
+            f += [""] * (4 - len(f))
+            parsed.append((f[1] == "1", f[2], f[3]))
+        todo = [x for x in parsed if x is not None]
+        impl = common.run_lines_parallel(common.IMPLRUN, ["nuke " + x[1] for x in todo])
+        nb = 0
+        for (ok, rawhex, spechex), a in zip(todo, impl):
+            chk.case("doc:" + rawhex, nontrivial=ok and ("7ee298a23c" in rawhex or "3ee298a27e" in rawhex))
+            chk.count("documents:" + ("hypotheses-hold" if ok else "hypotheses-fail(not compared)"))
+            if not ok:
+                continue
+            got = a.split(" ")[1] if a.startswith("ok ") else (a if a != "ok" else "")
+            if a == "ok":
+                got = ""
+            if got != spechex:
+                nb += 1
+                if nb <= 3:
+                    chk.broke("correspondence", "L-DOC", "Buffer.Bytes differs from the specification of C14_whole_document on a document meeting its hypotheses",
+                              input_hex=rawhex, impl=a, spec=spechex)
             else:
                 chk.traces += 1
     return chk.finish(level="proof", level_note=LEVEL_NOTE)
